@@ -6,7 +6,7 @@ from openpyxl.utils import get_column_letter
 from openpyxl.worksheet.formula import ArrayFormula
 
 from excel2pycl.src.cell import Cell
-from excel2pycl.src.exceptions import E2PyclSafetyException, E2PyclParserException
+from excel2pycl.src.exceptions import E2PyclSafetyException, E2PyclParserException, E2PyclCellException
 from excel2pycl.src.handle_cell import handle_cell
 
 
@@ -17,6 +17,15 @@ class Excel:
                         in zip(worksheets['titles'], range(len(worksheets['titles'])))}
         self._suspicious_cells = worksheets['suspicious_cells']
         self._sheets_size = worksheets['sheets_size']
+
+    def _handle_cell_identifiers(self, cell: Cell):
+        """
+        A reference that cannot be resolved (unknown worksheet title, impossible column) is a problem of the formula
+        """
+        try:
+            handle_cell(cell, self._titles)
+        except E2PyclCellException as e:
+            raise E2PyclParserException(*e.args) from e
 
     def is_safe(self):
         """
@@ -44,7 +53,7 @@ class Excel:
             # TODO добавить кастомные исключения
             raise E2PyclParserException('It is not possible to get a cell without pointing to a specific row')
 
-        handle_cell(cell, self._titles)
+        self._handle_cell_identifiers(cell)
 
         return self._fill_cell(cell)
 
@@ -52,8 +61,8 @@ class Excel:
     # TODO добавить проверки на предмет выхода за диапазоны excel-файлика
     # TODO добавить проверки на предмет того, что дальше, а что ближе
     def get_range(self, first: Cell, second: Cell) -> list:
-        handle_cell(first, self._titles)
-        handle_cell(second, self._titles)
+        self._handle_cell_identifiers(first)
+        self._handle_cell_identifiers(second)
 
         if first.title != second.title:
             raise E2PyclParserException(
@@ -70,9 +79,9 @@ class Excel:
         return result
 
     def get_similar_second(self, base: Cell, first: Cell, second: Cell):
-        handle_cell(base, self._titles)
-        handle_cell(first, self._titles)
-        handle_cell(second, self._titles)
+        self._handle_cell_identifiers(base)
+        self._handle_cell_identifiers(first)
+        self._handle_cell_identifiers(second)
 
         return Cell(base.title, base.column + (second.column - first.column), base.row + (second.row - first.row) if first.row is not None or second.row is not None else None)
 
@@ -117,8 +126,8 @@ class Excel:
 
     # TODO добавить проверки аналогичные get_set
     def get_matrix(self, first: Cell, second: Cell) -> list:
-        handle_cell(first, self._titles)
-        handle_cell(second, self._titles)
+        self._handle_cell_identifiers(first)
+        self._handle_cell_identifiers(second)
 
         if first.row is None and second.row is None:
             if first.column == second.column:
